@@ -66,7 +66,9 @@ class ModbusTransactionManager(object):
         self.backoff = kwargs.get('backoff', Defaults.Backoff) or 0.3
         self.retry_on_empty = kwargs.get('retry_on_empty', Defaults.RetryOnEmpty)
         self.retry_on_invalid = kwargs.get('retry_on_invalid', Defaults.RetryOnInvalid)
-        self.retries = kwargs.get('retries', Defaults.Retries) or 1
+        self.retries = kwargs.get('retries', Defaults.Retries)
+        if self.retries is None:
+            self.retries = Defaults.Retries
         self._transaction_lock = RLock()
         self._no_response_devices = []
         if client:
@@ -162,19 +164,20 @@ class ModbusTransactionManager(object):
                             self._no_response_devices.append(request.unit_id)
                         elif request.unit_id in self._no_response_devices and response:
                             self._no_response_devices.remove(request.unit_id)
-                        if not response and self.retry_on_empty:
+                        if not response:
+                            if not self.retry_on_empty:
+                                break
                             _logger.debug("Retry on empty - {}".format(retries))
-                        elif not response:
-                            break
-                        if not self.retry_on_invalid:
-                            break
-                        mbap = self.client.framer.decode_data(response)
-                        if (mbap.get('unit') == request.unit_id):
-                            break
-                        if ('length' in mbap and expected_response_length and
-                            mbap.get('length') == expected_response_length):
-                            break
-                        _logger.debug("Retry on invalid - {}".format(retries))
+                        else:
+                            if not self.retry_on_invalid:
+                                break
+                            mbap = self.client.framer.decode_data(response)
+                            if (mbap.get('unit') == request.unit_id):
+                                break
+                            if ('length' in mbap and expected_response_length and
+                                mbap.get('length') == expected_response_length):
+                                break
+                            _logger.debug("Retry on invalid - {}".format(retries))
                         if hasattr(self.client, "state"):
                             _logger.debug("RESETTING Transaction state to 'IDLE' for retry")
                             self.client.state = ModbusTransactionState.IDLE
